@@ -201,6 +201,9 @@ def run_check(pid, tier, seed, jobs):
 
     results = []
     wit_results = []
+    stopped_early = 0
+    early = {"tries": 0, "hit": None,
+             "known": {k["signature"] for k in load_known() if k.get("property") == pid}}
     deadline = tcfg.get("deadline", 3600 if tier == "quick" else 6 * 3600)
     ctx = mp.get_context("fork")
     with ctx.Pool(jobs, initializer=_init_worker, initargs=(pid,), maxtasksperchild=tcfg.get("maxtasks", 200)) as pool:
@@ -213,6 +216,26 @@ def run_check(pid, tier, seed, jobs):
                     raise mp.TimeoutError()
                 r = it.next(timeout=left)
                 (wit_results if r["idx"] >= nwit0 else results).append(r)
+                # fail fast: a refuted obligation is replayed at once; a confirmed violation that is not a listed
+                # finding ends the run (the remaining obligations are reported as not run)
+                if r["idx"] < nwit0 and r.get("status") == "REFUTED" and early["tries"] < 12:
+                    for f in r["failures"][:2]:
+                        early["tries"] += 1
+                        rec = {"property": pid, "spec": r["spec"], "values": f["values"], "label": f["label"],
+                               "detail": f["detail"]}
+                        blob = json.dumps(rec, sort_keys=True)
+                        os.makedirs(os.path.join(ROOT, "replays", pid), exist_ok=True)
+                        path = os.path.join(ROOT, "replays", pid, hashlib.sha1(blob.encode()).hexdigest()[:16] + ".json")
+                        with open(path, "w") as fh:
+                            fh.write(blob)
+                        rr = replay_subprocess(path)
+                        if rr["kind"] == "fail" and signature(r["spec"], rr["label"]) not in early["known"]:
+                            early["hit"] = (signature(r["spec"], rr["label"]), path, rr)
+                            break
+                    if early["hit"]:
+                        stopped_early = len(jobs_list) - len(results)
+                        pool.terminate()
+                        break
         except StopIteration:
             pass
         except mp.TimeoutError:
@@ -309,6 +332,11 @@ def run_check(pid, tier, seed, jobs):
                 harness_errors.append("no counterexample of signature %r replays concretely (%d tried): %s"
                                       % (sig0, min(len(lst), 8), json.dumps(lst[0][3])[:200]))
 
+    if early["hit"] and not any(v[0] == early["hit"][0] for v in violations):
+        violations.append(early["hit"])
+    if stopped_early:
+        messages.append("stopped after the first confirmed violation: %d obligations not run" % stopped_early)
+
     # UNKNOWN obligations: never success
     for r in inconclusive:
         harness_errors.append("inconclusive obligation (%s): %s" % (r.get("why"), json.dumps(r["spec"])[:300]))
@@ -358,6 +386,7 @@ def run_check(pid, tier, seed, jobs):
             "stand_ins": meta.get("stand_ins", []),
             "outside_claim": meta.get("outside_claim", []),
             "known_findings_hit": sorted(known_hit),
+            "stopped_early_obligations_not_run": stopped_early,
             "engine": "CrossHair 0.0.110 explore_paths + z3 %s; verdict per obligation = path tree exhausted with every path passing" % _z3v(),
             "explanation": meta.get("explanation", ""),
         },
